@@ -789,6 +789,12 @@ Proof.
       destruct (Z.eq_dec x c) as [E2|E2]; [right; left; congruence|left; tauto].
 Qed.
 
+Corollary set_add_kids_absent w p c : mem c (kids w p) = false -> set_add_kids w p c = kids w p ++ [c].
+Proof.
+  intro H. unfold set_add_kids. rewrite H. rewrite andb_false_r.
+  rewrite (remove_id_notin c _ (proj1 (mem_false _ _) H)). reflexivity.
+Qed.
+
 (* ---------- the KeyError flags (required) ---------- *)
 
 Lemma set_add_ir w p c : kindof w p = KIR -> set_add w p c = (w, true).
@@ -1321,3 +1327,406 @@ Proof.
   - split; [apply good_refl; assumption|]. intro x. cbn [In]. tauto.
   - split; [exact A|]. split; [exact C|exact B].
 Qed.
+
+(* ---------- per-method effect theorems for OSet (Python set semantics on the field) ---------- *)
+
+Lemma field_ok_not_ir w p fk : field_ok (kindof w p) fk = true -> kindof w p <> KIR.
+Proof. intros H E. rewrite E in H. discriminate H. Qed.
+
+Lemma discard_field_effect w known p fk c :
+  Forest w known -> CacheInv w -> kindof w p <> KIR ->
+  forall x, In x (field (fst (set_discard w p c)) p fk) <-> In x (field w p fk) /\ x <> c.
+Proof.
+  intros Hf Hc Hp x. destruct (set_discard_preserves w known p c Hf Hc) as [_ [_ [_ Hpres]]].
+  rewrite (field_In_pres w _ p fk x Hpres). rewrite (set_discard_kids w known p c Hf Hc Hp p).
+  rewrite Z.eqb_refl. rewrite remove_id_In. rewrite field_In. tauto.
+Qed.
+
+Theorem oset_add_effect w known p fk c :
+  Forest w known -> CacheInv w -> op_okb w known (OSet p fk SAdd [[c]]) = true ->
+  exists w', step w (OSet p fk SAdd [[c]]) = Ok w' /\ Good known w w' /\
+             forall x, In x (field w' p fk) <-> In x (field w p fk) \/ x = c.
+Proof.
+  intros Hf Hc Hg. destruct (oset_guard _ _ _ _ _ _ Hg) as [Hhp [Hfk [Hargs _]]].
+  cbn [forallb] in Hargs. rewrite !andb_true_r in Hargs.
+  destruct (good_add known w w p fk c (good_refl known w Hf Hc) Hhp Hfk Hargs) as [Hgood Hfl].
+  exists (fst (set_add w p c)). split; [cbn [step do_set]; apply flagged_true; exact Hfl|]. split; [exact Hgood|].
+  intro x. destruct Hgood as [_ [_ Hpres]]. rewrite (field_In_pres w _ p fk x Hpres).
+  destruct (member_ok_child w p fk c Hfk Hargs) as [Hhc [Hpk Hpi]].
+  rewrite (set_add_members w known p c Hf Hc Hhp Hhc Hpk Hpi x). rewrite field_In.
+  pose proof (member_ok_inF w fk c Hargs) as HinF. split; [tauto|].
+  intros [H|H]; [tauto|]. subst x. tauto.
+Qed.
+
+Theorem oset_discard_effect w known p fk c :
+  Forest w known -> CacheInv w -> op_okb w known (OSet p fk SDiscard [[c]]) = true ->
+  exists w', step w (OSet p fk SDiscard [[c]]) = Ok w' /\ Good known w w' /\
+             forall x, In x (field w' p fk) <-> In x (field w p fk) /\ x <> c.
+Proof.
+  intros Hf Hc Hg. destruct (oset_guard _ _ _ _ _ _ Hg) as [Hhp [Hfk _]].
+  destruct (good_discard known w w p c (good_refl known w Hf Hc)) as [Hgood Hfl].
+  exists (fst (set_discard w p c)). split; [cbn [step do_set]; apply flagged_true; exact Hfl|]. split; [exact Hgood|].
+  apply (discard_field_effect w known p fk c Hf Hc (field_ok_not_ir w p fk Hfk)).
+Qed.
+
+Theorem oset_remove_effect w known p fk c :
+  Forest w known -> CacheInv w -> op_okb w known (OSet p fk SRemove [[c]]) = true ->
+  (mem c (field w p fk) = false -> step w (OSet p fk SRemove [[c]]) = Err EKey) /\
+  (mem c (field w p fk) = true ->
+   exists w', step w (OSet p fk SRemove [[c]]) = Ok w' /\ Good known w w' /\
+              forall x, In x (field w' p fk) <-> In x (field w p fk) /\ x <> c).
+Proof.
+  intros Hf Hc Hg. destruct (oset_guard _ _ _ _ _ _ Hg) as [Hhp [Hfk _]]. split; intro Em.
+  - cbn [step do_set]. rewrite Em. reflexivity.
+  - destruct (good_discard known w w p c (good_refl known w Hf Hc)) as [Hgood Hfl].
+    exists (fst (set_discard w p c)). split; [cbn [step do_set]; rewrite Em; apply flagged_true; exact Hfl|].
+    split; [exact Hgood|]. apply (discard_field_effect w known p fk c Hf Hc (field_ok_not_ir w p fk Hfk)).
+Qed.
+
+Theorem oset_pop_effect w known p fk args :
+  Forest w known -> CacheInv w -> op_okb w known (OSet p fk SPop args) = true ->
+  (step w (OSet p fk SPop args) = Err EKey <-> field w p fk = []) /\
+  (forall c, args = [[c]] -> mem c (field w p fk) = true ->
+   exists w', step w (OSet p fk SPop args) = Ok w' /\ Good known w w' /\
+              forall x, In x (field w' p fk) <-> In x (field w p fk) /\ x <> c).
+Proof.
+  intros Hf Hc Hg. destruct (oset_guard _ _ _ _ _ _ Hg) as [Hhp [Hfk _]]. split.
+  - cbn [step]. unfold do_set. destruct (field w p fk) as [|y cur] eqn:Ecur; [tauto|].
+    split; [|intro H; discriminate H]. intro H. exfalso.
+    destruct args as [|[|c [|c2 l]] ll]; try discriminate H.
+    destruct (mem c (y :: cur)); [|discriminate H].
+    destruct (good_discard known w w p c (good_refl known w Hf Hc)) as [_ Hfl].
+    rewrite (flagged_true _ Hfl) in H. discriminate H.
+  - intros c Ea Em. subst args.
+    destruct (good_discard known w w p c (good_refl known w Hf Hc)) as [Hgood Hfl].
+    exists (fst (set_discard w p c)). split.
+    + cbn [step]. unfold do_set. destruct (field w p fk) as [|y cur] eqn:Ecur; [discriminate Em|].
+      rewrite Em. apply flagged_true. exact Hfl.
+    + split; [exact Hgood|]. apply (discard_field_effect w known p fk c Hf Hc (field_ok_not_ir w p fk Hfk)).
+Qed.
+
+Theorem oset_clear_effect w known p fk args :
+  Forest w known -> CacheInv w -> op_okb w known (OSet p fk SClear args) = true ->
+  exists w', step w (OSet p fk SClear args) = Ok w' /\ Good known w w' /\ field w' p fk = [].
+Proof.
+  intros Hf Hc Hg. destruct (oset_guard _ _ _ _ _ _ Hg) as [Hhp [Hfk _]].
+  destruct (fold_discard_kids known w p fk (field w p fk) Hf Hc Hfk) as [Hgood [Hfl Hk]].
+  eexists. split; [cbn [step do_set]; apply flagged_true; exact Hfl|]. split; [exact Hgood|].
+  destruct Hgood as [_ [_ Hpres]].
+  set (w' := fst (fold_ok (fun w c => set_discard w p c) (field w p fk) w)) in *.
+  destruct (field w' p fk) as [|y l] eqn:E; [reflexivity|]. exfalso.
+  assert (In y (field w' p fk)) as Hin.
+  { rewrite E. left. reflexivity. }
+  rewrite (field_In_pres w w' p fk y Hpres) in Hin. destruct Hin as [H1 H2]. apply Hk in H1.
+  destruct H1 as [H1 H3]. apply H3. apply field_In. tauto.
+Qed.
+
+Theorem oset_update_effect w known p fk args :
+  Forest w known -> CacheInv w -> op_okb w known (OSet p fk SUpdate args) = true ->
+  exists w', step w (OSet p fk SUpdate args) = Ok w' /\ Good known w w' /\
+             forall x, In x (field w' p fk) <-> In x (field w p fk) \/ In x (concat args).
+Proof.
+  intros Hf Hc Hg. destruct (oset_guard _ _ _ _ _ _ Hg) as [Hhp [Hfk [Hargs _]]].
+  assert (Hall : forall c, In c (concat args) -> member_ok w fk c = true) by (apply forallb_concat; exact Hargs).
+  assert (Hfin : forall w', Good known w w' ->
+            (forall x, In x (kids w' p) <-> In x (kids w p) \/ In x (concat args)) ->
+            forall x, In x (field w' p fk) <-> In x (field w p fk) \/ In x (concat args)).
+  { intros w' [_ [_ Hpres]] Hk x. rewrite (field_In_pres w w' p fk x Hpres). rewrite Hk. rewrite field_In.
+    split; [tauto|]. intros [H|H]; [tauto|]. pose proof (member_ok_inF w fk x (Hall x H)). tauto. }
+  destruct (kind_eq_dec (kindof w p) KBI) as [E|E].
+  - destruct (good_blocks known w p fk (concat args) Hf Hc Hhp E Hfk Hall) as [Hgood Hfl].
+    exists (fst (blocks_update w p (concat args))).
+    split; [cbn [step do_set]; rewrite E; apply flagged_true; exact Hfl|]. split; [exact Hgood|].
+    apply (Hfin _ Hgood). intro x.
+    pose proof Hfk as Hfk2. rewrite E in Hfk2. cbn [field_ok] in Hfk2. apply kinds_eqb_eq in Hfk2. subst fk.
+    destruct (blocks_update_ok w known p (concat args) Hf Hc Hhp E) as [_ [_ [_ [_ [Hk _]]]]].
+    { intros v Hv. apply member_ok_block. apply Hall. exact Hv. }
+    rewrite Hk. rewrite in_app_iff. rewrite new_items_In.
+    destruct (in_dec Z.eq_dec x (kids w p)) as [Hin|Hin]; tauto.
+  - destruct (fold_add_kids known w p fk (concat args) Hf Hc Hhp Hfk Hall) as [Hgood [Hfl Hk]].
+    exists (fst (fold_ok (fun w c => set_add w p c) (concat args) w)). split.
+    + cbn [step do_set]. destruct (kindof w p); try (apply flagged_true; exact Hfl). contradiction.
+    + split; [exact Hgood|]. apply (Hfin _ Hgood Hk).
+Qed.
+
+Theorem oset_ior_effect w known p fk a :
+  Forest w known -> CacheInv w -> op_okb w known (OSet p fk SIor [a]) = true ->
+  exists w', step w (OSet p fk SIor [a]) = Ok w' /\ Good known w w' /\
+             forall x, In x (field w' p fk) <-> In x (field w p fk) \/ In x a.
+Proof.
+  intros Hf Hc Hg. destruct (oset_guard _ _ _ _ _ _ Hg) as [Hhp [Hfk [Hargs _]]].
+  assert (Hall : forall c, In c a -> member_ok w fk c = true).
+  { intros c Hc'. apply (forallb_concat _ _ Hargs). cbn [concat]. rewrite app_nil_r. exact Hc'. }
+  destruct (fold_add_kids known w p fk a Hf Hc Hhp Hfk Hall) as [Hgood [Hfl Hk]].
+  exists (fst (fold_ok (fun w c => set_add w p c) a w)).
+  split; [cbn [step do_set]; apply flagged_true; exact Hfl|]. split; [exact Hgood|].
+  intro x. destruct Hgood as [_ [_ Hpres]]. rewrite (field_In_pres w _ p fk x Hpres). rewrite Hk. rewrite field_In.
+  split; [tauto|]. intros [H|H]; [tauto|]. pose proof (member_ok_inF w fk x (Hall x H)). tauto.
+Qed.
+
+Theorem oset_iand_effect w known p fk a :
+  Forest w known -> CacheInv w -> op_okb w known (OSet p fk SIand [a]) = true ->
+  exists w', step w (OSet p fk SIand [a]) = Ok w' /\ Good known w w' /\
+             forall x, In x (field w' p fk) <-> In x (field w p fk) /\ In x a.
+Proof.
+  intros Hf Hc Hg. destruct (oset_guard _ _ _ _ _ _ Hg) as [Hhp [Hfk _]].
+  destruct (fold_discard_kids known w p fk (filter (fun c => negb (mem c a)) (field w p fk)) Hf Hc Hfk) as [Hgood [Hfl Hk]].
+  eexists. split; [cbn [step do_set]; apply flagged_true; exact Hfl|]. split; [exact Hgood|].
+  intro x. destruct Hgood as [_ [_ Hpres]]. rewrite (field_In_pres w _ p fk x Hpres). rewrite Hk.
+  rewrite filter_In. rewrite !field_In. destruct (mem x a) eqn:Em; cbn [negb].
+  - apply mem_In in Em. split; [tauto|]. intros [[H1 H2] _]. split; [split; [exact H1|]|exact H2].
+    intros [_ H3]. discriminate H3.
+  - apply mem_false in Em. split; [|tauto]. intros [[H1 H3] H2]. exfalso. apply H3. tauto.
+Qed.
+
+Theorem oset_isub_effect w known p fk a :
+  Forest w known -> CacheInv w -> op_okb w known (OSet p fk SIsub [a]) = true ->
+  exists w', step w (OSet p fk SIsub [a]) = Ok w' /\ Good known w w' /\
+             forall x, In x (field w' p fk) <-> In x (field w p fk) /\ ~ In x a.
+Proof.
+  intros Hf Hc Hg. destruct (oset_guard _ _ _ _ _ _ Hg) as [Hhp [Hfk _]].
+  destruct (fold_discard_kids known w p fk a Hf Hc Hfk) as [Hgood [Hfl Hk]].
+  eexists. split; [cbn [step do_set]; apply flagged_true; exact Hfl|]. split; [exact Hgood|].
+  intro x. destruct Hgood as [_ [_ Hpres]]. rewrite (field_In_pres w _ p fk x Hpres). rewrite Hk. rewrite field_In. tauto.
+Qed.
+
+Theorem oset_ixor_effect w known p fk a :
+  Forest w known -> CacheInv w -> op_okb w known (OSet p fk SIxor [a]) = true ->
+  exists w', step w (OSet p fk SIxor [a]) = Ok w' /\ Good known w w' /\
+             forall x, In x (field w' p fk) <-> (In x (field w p fk) /\ ~ In x a) \/ (~ In x (field w p fk) /\ In x a).
+Proof.
+  intros Hf Hc Hg. destruct (oset_guard _ _ _ _ _ _ Hg) as [Hhp [Hfk [Hargs _]]].
+  assert (Hall : forall c, In c (dedup a) -> member_ok w fk c = true).
+  { intros c Hc'. apply (forallb_concat _ _ Hargs). cbn [concat]. rewrite app_nil_r. apply dedup_In. exact Hc'. }
+  destruct (fold_xor_kids known w p fk (dedup a) Hf Hc Hhp Hfk (dedup_NoDup a) Hall) as [Hgood [Hfl Hk]].
+  eexists. split; [cbn [step do_set]; apply flagged_true; exact Hfl|]. split; [exact Hgood|].
+  intro x. destruct Hgood as [_ [_ Hpres]]. rewrite (field_In_pres w _ p fk x Hpres). rewrite Hk. rewrite field_In.
+  rewrite dedup_In. split; [tauto|]. intros [H|[H1 H2]]; [tauto|].
+  pose proof (member_ok_inF w fk x (Hall x (proj2 (dedup_In x a) H2))) as HinF. tauto.
+Qed.
+
+(* ---------- effect of the parent setter on a non-module node ---------- *)
+
+Theorem osetparent_effect w known c p :
+  Forest w known -> CacheInv w -> op_okb w known (OSetParent c p) = true -> kindof w c <> KMod ->
+  exists w', step w (OSetParent c p) = Ok w' /\ Good known w w' /\
+    par w' c = p /\
+    (forall q, kids w' q = if match p with Some q0 => q =? q0 | None => false end
+                           then remove_id c (kids w q) ++ [c] else remove_id c (kids w q)) /\
+    (forall x, x <> c -> nodes w' x = nodes w x) /\
+    getn w' c = with_par (getn w c) p.
+Proof.
+  intros Hf Hc Hg Hnm. cbn [op_okb] in Hg. apply andb_prop in Hg. destruct Hg as [Hg Hq].
+  apply andb_prop in Hg. destruct Hg as [Hhc Hni].
+  assert (kindof w c <> KIR) as Hnir. { intro E. rewrite E in Hni. discriminate Hni. }
+  cbn [step]. rewrite (do_setparent_eq w c p Hnm Hnir).
+  destruct (pre_ok w known c Hf Hc Hhc Hnm) as [Hf1 [Hc1 [Hfl1 [Hpar1 [Hp1 [Hk1 [Hn1 Hg1]]]]]]].
+  assert (match par w c with Some old => flagged (set_discard w old c) | None => Ok w end = Ok (fst (pre w c))) as E1.
+  { unfold pre in *. destruct (par w c) as [old|]; [apply flagged_true; exact Hfl1|reflexivity]. }
+  rewrite E1. cbn [bind]. set (w1 := fst (pre w c)) in *. destruct p as [q0|].
+  - apply andb_prop in Hq. destruct Hq as [Hhq Hkq].
+    destruct (parent_kind (kindof w c)) as [k|] eqn:Epk; [|discriminate Hkq]. apply kind_eqb_eq in Hkq.
+    destruct (Hp1 c) as [Hhc1 Hkc1]. destruct (Hp1 q0) as [Hhq1 Hkq1].
+    assert (kindof w q0 <> KIR) as Hqi.
+    { intro E. rewrite E in Hkq. subst k. destruct (kindof w c); cbn [parent_kind] in Epk; try discriminate Epk. apply Hnm. reflexivity. }
+    destruct (set_add_ok w1 known q0 c Hf1 Hc1) as [A [B [C [D [Ep [Ek [Eq [En Eg]]]]]]]].
+    + rewrite Hhq1. exact Hhq.
+    + rewrite Hhc1. exact Hhc.
+    + rewrite Hkc1, Hkq1. rewrite Epk. rewrite Hkq. reflexivity.
+    + rewrite Hkq1. exact Hqi.
+    + exists (fst (set_add w1 q0 c)). split; [apply flagged_true; exact C|].
+      split; [split; [exact A|]; split; [exact B|]; exact (pres_trans _ _ _ Hp1 D)|].
+      split; [exact Ep|]. split; [|split].
+      * intro q. destruct (Z.eqb_spec q q0) as [E|E].
+        -- subst q. rewrite Ek. unfold set_add_kids.
+           assert (mem c (kids w1 q0) = false) as Hm. { apply mem_false. rewrite Hk1. rewrite remove_id_In. tauto. }
+           rewrite Hm. rewrite andb_false_r. rewrite (remove_id_notin c (kids w1 q0) (proj1 (mem_false _ _) Hm)).
+           rewrite Hk1. reflexivity.
+        -- rewrite (Eq q E). rewrite Hk1. apply remove_id_notin. rewrite remove_id_In. tauto.
+      * intros x Hx. rewrite (En x Hx). apply Hn1. exact Hx.
+      * rewrite Eg. rewrite Hg1. reflexivity.
+  - exists w1. split; [reflexivity|]. split; [split; [exact Hf1|]; split; [exact Hc1|exact Hp1]|].
+    split; [exact Hpar1|]. split; [intro q; apply Hk1|]. split; [exact Hn1|exact Hg1].
+Qed.
+
+(* has / kindof are untouched by every F1 operation *)
+Lemma skel_pres w w' : SameSkel w w' -> Pres w w'.
+Proof. intros [_ [_ Hn]] x. destruct (Hn x) as [A [B _]]. split; [exact A|unfold kindof; exact B]. Qed.
+
+Theorem f1_pres : forall w known o,
+  Forest w known -> CacheInv w -> op_okb w known o = true -> F1 w o -> Pres w (step' w o).
+Proof.
+  intros w known o Hf Hc Hg HF. unfold step'. destruct o; cbn [F1] in HF; try contradiction; cbn [step].
+  - destruct (do_setparent w c p) as [w'|e] eqn:E; [|apply pres_refl].
+    apply (do_setparent_good w known c p w' Hf Hc Hg HF E).
+  - destruct (do_set w p fk m args) as [w'|e] eqn:E; [|apply pres_refl].
+    apply (do_set_good w known p fk m args w' Hf Hc Hg E).
+  - cbn [op_okb] in Hg. apply skel_pres. apply (bi_attr_skel w bi _ (keeps_addr a) (is_k_has _ _ _ Hg)).
+  - cbn [op_okb] in Hg. apply andb_prop in Hg. destruct Hg as [Hg _]. apply andb_prop in Hg. destruct Hg as [Hh _].
+    apply skel_pres. destruct (kindof w n); try (apply (block_attr_skel w n _ (keeps_size s) Hh)).
+    apply (bi_attr_skel w n _ (keeps_size s) Hh).
+  - cbn [op_okb] in Hg. apply andb_prop in Hg. destruct Hg as [Hg _]. apply andb_prop in Hg. destruct Hg as [Hh _].
+    apply skel_pres. apply (block_attr_skel w b _ (keeps_off o) Hh).
+  - cbn [op_okb] in Hg. apply skel_pres. apply (sym_attr_skel w s _ (keeps_name nm) (is_k_has _ _ _ Hg)).
+  - cbn [op_okb] in Hg. apply andb_prop in Hg. destruct Hg as [Hg _].
+    apply skel_pres. apply (sym_attr_skel w s _ (keeps_pay p) (is_k_has _ _ _ Hg)).
+  - apply skel_pres. apply symx_upd_skel.
+  - destruct (dict_has Z.eqb k (symx w bi)); [|apply pres_refl]. apply skel_pres. apply symx_upd_skel.
+  - destruct (dict_has Z.eqb k (symx w bi)); [|apply pres_refl]. apply skel_pres. apply symx_upd_skel.
+  - destruct (symx w bi) as [|kv d]; [apply pres_refl|]. apply skel_pres. apply symx_upd_skel.
+  - destruct (dict_has Z.eqb k (symx w bi)); [apply pres_refl|]. apply skel_pres. apply symx_upd_skel.
+  - apply skel_pres. apply symx_upd_skel.
+  - apply skel_pres. apply symx_upd_skel.
+  - apply skel_pres. apply symx_upd_skel.
+  - apply skel_pres. apply force_skel.
+Qed.
+
+(* the attribute operations leave the whole ownership skeleton alone *)
+Theorem f1_attr_skel : forall w known o,
+  op_okb w known o = true ->
+  match o with
+  | OAttrAddr _ _ | OAttrSize _ _ | OAttrOff _ _ | OAttrName _ _ | OAttrPay _ _
+  | OSymxSet _ _ _ | OSymxDel _ _ | OSymxPop _ _ | OSymxPopitem _ | OSymxSetdefault _ _ _
+  | OSymxUpdate _ _ | OSymxClear _ | OSymxAssign _ _ | OTouch _ => SameSkel w (step' w o)
+  | _ => True
+  end.
+Proof.
+  intros w known o Hg. unfold step'. destruct o; try exact I; cbn [step].
+  - cbn [op_okb] in Hg. apply (bi_attr_skel w bi _ (keeps_addr a) (is_k_has _ _ _ Hg)).
+  - cbn [op_okb] in Hg. apply andb_prop in Hg. destruct Hg as [Hg _]. apply andb_prop in Hg. destruct Hg as [Hh _].
+    destruct (kindof w n); try (apply (block_attr_skel w n _ (keeps_size s) Hh)).
+    apply (bi_attr_skel w n _ (keeps_size s) Hh).
+  - cbn [op_okb] in Hg. apply andb_prop in Hg. destruct Hg as [Hg _]. apply andb_prop in Hg. destruct Hg as [Hh _].
+    apply (block_attr_skel w b _ (keeps_off o) Hh).
+  - cbn [op_okb] in Hg. apply (sym_attr_skel w s _ (keeps_name nm) (is_k_has _ _ _ Hg)).
+  - cbn [op_okb] in Hg. apply andb_prop in Hg. destruct Hg as [Hg _].
+    apply (sym_attr_skel w s _ (keeps_pay p) (is_k_has _ _ _ Hg)).
+  - apply symx_upd_skel.
+  - destruct (dict_has Z.eqb k (symx w bi)); [|apply skel_refl]. apply symx_upd_skel.
+  - destruct (dict_has Z.eqb k (symx w bi)); [|apply skel_refl]. apply symx_upd_skel.
+  - destruct (symx w bi) as [|kv d]; [apply skel_refl|]. apply symx_upd_skel.
+  - destruct (dict_has Z.eqb k (symx w bi)); [apply skel_refl|]. apply symx_upd_skel.
+  - apply symx_upd_skel.
+  - apply symx_upd_skel.
+  - apply symx_upd_skel.
+  - apply force_skel.
+Qed.
+
+(* ---------- the effect statements need "the owner is not an IR" ----------
+   With only well-kindedness (parent_kind (kindof w c) = Some (kindof w p)) the owner may be an IR and c a module;
+   set_add / set_discard are no-ops on such an owner (module lists are handled by the _ModuleList hooks), so
+   "par w' c = Some p" resp. "par w' c = None" fail.  Two concrete consistent worlds witness this; all effect
+   theorems above therefore carry the extra hypothesis kindof w p <> KIR (implied by the OSet / OSetParent guards
+   inside F1). *)
+
+Definition ref_ir : node :=
+  {| nk := KIR; nuuid := 10; npar := None; naddr := None; nsize := 0; noff := 0; nname := 0; npay := PNone |}.
+Definition ref_mod (q : option id) : node :=
+  {| nk := KMod; nuuid := 20; npar := q; naddr := None; nsize := 0; noff := 0; nname := 0; npay := PNone |}.
+
+Definition wref (attached : bool) : world :=
+  {| nodes := upd (upd (fun _ => None) 1 (Some ref_ir)) 2 (Some (ref_mod (if attached then Some 1 else None)));
+     kids := if attached then upd (fun _ => []) 1 [2] else fun _ => [];
+     cache := upd (fun _ => []) 1 (if attached then [(10, 1); (20, 2)] else [(10, 1)]);
+     nix := fun _ => []; rix := fun _ => []; tree := fun _ => lt_empty; symx := fun _ => [] |}.
+
+Lemma wref_getn b n :
+  getn (wref b) n = if n =? 2 then ref_mod (if b then Some 1 else None) else if n =? 1 then ref_ir else dnode.
+Proof. unfold getn, wref. cbn [nodes]. unfold upd. destruct (n =? 2); [reflexivity|]. destruct (n =? 1); reflexivity. Qed.
+
+Lemma wref_has b n : has (wref b) n = (n =? 2) || (n =? 1).
+Proof. unfold has, wref. cbn [nodes]. unfold upd. destruct (n =? 2); [reflexivity|]. destruct (n =? 1); reflexivity. Qed.
+
+Lemma wref_par b c : par (wref b) c = if c =? 2 then (if b then Some 1 else None) else None.
+Proof. unfold par. rewrite wref_getn. destruct (c =? 2); [reflexivity|]. destruct (c =? 1); reflexivity. Qed.
+
+Lemma wref_kind b n : kindof (wref b) n = if n =? 2 then KMod else if n =? 1 then KIR else KSym.
+Proof. unfold kindof. rewrite wref_getn. destruct (n =? 2); [reflexivity|]. destruct (n =? 1); reflexivity. Qed.
+
+Lemma wref_kids b p : kids (wref b) p = if b then (if p =? 1 then [2] else []) else [].
+Proof. unfold wref. cbn [kids]. destruct b; reflexivity. Qed.
+
+Lemma wref_forest b : Forest (wref b) [2; 1].
+Proof.
+  constructor.
+  - intro n. rewrite wref_has. cbn [In]. destruct (Z.eqb_spec n 2) as [E|E]; destruct (Z.eqb_spec n 1) as [E1|E1];
+    cbn [orb]; split; intro H; try reflexivity; try discriminate H; try lia.
+    destruct H as [H|[H|[]]]; congruence.
+  - intros p c. rewrite wref_kids. rewrite wref_par. destruct b.
+    + destruct (Z.eqb_spec p 1) as [E|E]; destruct (Z.eqb_spec c 2) as [E1|E1]; cbn [In]; split; intro H;
+      try congruence; try tauto.
+      * destruct H as [H|[]]. congruence.
+      * injection H as H. congruence.
+      * discriminate H.
+    + cbn [In]. split; [intros []|]. destruct (c =? 2); intro H; discriminate H.
+  - intro p. rewrite wref_kids. destruct b; [destruct (p =? 1)|]; repeat constructor. intros [].
+  - intros p c. rewrite wref_par. destruct (Z.eqb_spec c 2) as [E|E]; [|intro H; discriminate H].
+    destruct b; intro H; [|discriminate H]. injection H as H. subst c p. repeat split; reflexivity.
+  - intros a b0 Ha Hb. rewrite !wref_getn. cbn [In] in Ha, Hb.
+    destruct Ha as [Ha|[Ha|[]]]; destruct Hb as [Hb|[Hb|[]]]; subst a b0; cbn; intro H; try reflexivity; discriminate H.
+Qed.
+
+Lemma wref_cache b : CacheInv (wref b).
+Proof.
+  intros ir Hh Hk. rewrite wref_kind in Hk. rewrite wref_has in Hh.
+  destruct (Z.eqb_spec ir 2) as [E|E]; [discriminate Hk|]. destruct (Z.eqb_spec ir 1) as [E1|E1]; [|discriminate Hk].
+  subst ir. unfold reach. destruct b.
+  - change (cache (wref true) 1) with [(10, 1); (20, 2)]. change (subtree (wref true) 1) with [1; 2].
+    split; [repeat constructor; cbn [In]; lia|]. intros u n. rewrite wref_getn. cbn [dict_get In].
+    destruct (Z.eqb_spec 10 u) as [A|A]; [|destruct (Z.eqb_spec 20 u) as [B|B]].
+    + split; [intro H; injection H as H; subst n u; split; [tauto|reflexivity]|].
+      intros [[H|[H|[]]] H2]; subst n; cbn in H2; [reflexivity|lia].
+    + split; [intro H; injection H as H; subst n u; split; [tauto|reflexivity]|].
+      intros [[H|[H|[]]] H2]; subst n; cbn in H2; [lia|reflexivity].
+    + split; [intro H; discriminate H|]. intros [[H|[H|[]]] H2]; subst n; cbn in H2; lia.
+  - change (cache (wref false) 1) with [(10, 1)]. change (subtree (wref false) 1) with [1].
+    split; [repeat constructor; intros []|]. intros u n. rewrite wref_getn. cbn [dict_get In].
+    destruct (Z.eqb_spec 10 u) as [A|A].
+    + split; [intro H; injection H as H; subst n u; split; [tauto|reflexivity]|].
+      intros [[H|[]] H2]; subst n; reflexivity.
+    + split; [intro H; discriminate H|]. intros [[H|[]] H2]; subst n; cbn in H2; lia.
+Qed.
+
+Lemma set_add_effect_refuted : exists w known p c,
+  Forest w known /\ CacheInv w /\ has w p = true /\ has w c = true /\
+  parent_kind (kindof w c) = Some (kindof w p) /\ par (fst (set_add w p c)) c <> Some p.
+Proof.
+  exists (wref false), [2; 1], 1, 2. split; [apply wref_forest|]. split; [apply wref_cache|].
+  split; [reflexivity|]. split; [reflexivity|]. split; [reflexivity|].
+  rewrite (set_add_ir (wref false) 1 2 eq_refl). cbn [fst]. rewrite wref_par. discriminate.
+Qed.
+
+Lemma set_discard_effect_refuted : exists w known p c,
+  Forest w known /\ CacheInv w /\ has w p = true /\ has w c = true /\
+  parent_kind (kindof w c) = Some (kindof w p) /\ mem c (kids w p) = true /\
+  par (fst (set_discard w p c)) c <> None.
+Proof.
+  exists (wref true), [2; 1], 1, 2. split; [apply wref_forest|]. split; [apply wref_cache|].
+  split; [reflexivity|]. split; [reflexivity|]. split; [reflexivity|]. split; [reflexivity|].
+  rewrite (set_discard_ir (wref true) 1 2 eq_refl). cbn [fst]. rewrite wref_par. discriminate.
+Qed.
+
+Print Assumptions f1_preserves.
+Print Assumptions f1_pres.
+Print Assumptions f1_attr_skel.
+Print Assumptions f1_no_keyerror.
+Print Assumptions f1_no_keyerror_blocks.
+Print Assumptions blocks_update_ok.
+Print Assumptions set_add_ok.
+Print Assumptions set_add_members.
+Print Assumptions set_discard_preserves.
+Print Assumptions set_discard_effect.
+Print Assumptions set_discard_nonmember.
+Print Assumptions osetparent_effect.
+Print Assumptions oset_add_effect.
+Print Assumptions oset_discard_effect.
+Print Assumptions oset_remove_effect.
+Print Assumptions oset_pop_effect.
+Print Assumptions oset_clear_effect.
+Print Assumptions oset_update_effect.
+Print Assumptions oset_ior_effect.
+Print Assumptions oset_iand_effect.
+Print Assumptions oset_isub_effect.
+Print Assumptions oset_ixor_effect.
+Print Assumptions set_add_effect_refuted.
+Print Assumptions set_discard_effect_refuted.
